@@ -237,7 +237,7 @@ func leaf(m *Member, col string, d OpDesc, o int) (qframe.Filter, string) {
 	desc := ""
 	switch typ {
 	case "int":
-		ops := []string{">", ">=", "<", "<=", "=", "!=", "in", "any_bits", "all_bits", "fn", "col", "isnull", "isnotnull"}
+		ops := []string{">", ">=", "<", "<=", "=", "!=", "in", "any_bits", "all_bits", "fn", "col", "isnull", "isnotnull", "fn2"}
 		op := ops[p(0)%len(ops)]
 		c := intConsts[p(1)%len(intConsts)]
 		switch op {
@@ -246,6 +246,11 @@ func leaf(m *Member, col string, d OpDesc, o int) (qframe.Filter, string) {
 			if p(5)%3 == 0 {
 				f.Arg = []int{c, c, c + 1, c - 7}
 			}
+		case "fn2":
+			// the caller's own function of two cells, the second from another column
+			others := colsOfType(m, "int")
+			f.Comparator, f.Arg = func(x, y int) bool { return x <= y }, types.ColumnName(others[p(3)%len(others)])
+			desc = fmt.Sprintf("%s fn2 %v", col, f.Arg)
 		case "fn":
 			f.Comparator = func(x int) bool { return x%2 == c%2 }
 		case "col":
@@ -262,12 +267,16 @@ func leaf(m *Member, col string, d OpDesc, o int) (qframe.Filter, string) {
 			desc = fmt.Sprintf("%s %s %v", col, op, c)
 		}
 	case "float":
-		ops := []string{">", ">=", "<", "<=", "=", "!=", "isnull", "isnotnull", "fn", "col"}
+		ops := []string{">", ">=", "<", "<=", "=", "!=", "isnull", "isnotnull", "fn", "col", "fn2"}
 		op := ops[p(0)%len(ops)]
 		c := floatConsts[p(1)%len(floatConsts)]
 		switch op {
 		case "isnull", "isnotnull":
 			f.Comparator = op
+		case "fn2":
+			others := colsOfType(m, "float")
+			f.Comparator, f.Arg = func(x, y float64) bool { return x <= y }, types.ColumnName(others[p(3)%len(others)])
+			op = fmt.Sprintf("fn2 %v", f.Arg)
 		case "fn":
 			f.Comparator = func(x float64) bool { return x > c }
 		case "col":
@@ -292,7 +301,7 @@ func leaf(m *Member, col string, d OpDesc, o int) (qframe.Filter, string) {
 		}
 		desc = fmt.Sprintf("%s %s %v", col, op, c)
 	case "string", "enum":
-		ops := []string{"<", ">", "=", "!=", "like", "ilike", "ilike", "in", "isnull", "isnotnull", "fn", "col"}
+		ops := []string{"<", ">", "=", "!=", "like", "ilike", "ilike", "in", "isnull", "isnotnull", "fn", "col", "fn2"}
 		op := ops[p(0)%len(ops)]
 		c := strConsts[p(1)%len(strConsts)]
 		switch op {
@@ -303,6 +312,10 @@ func leaf(m *Member, col string, d OpDesc, o int) (qframe.Filter, string) {
 			}
 		case "isnull", "isnotnull":
 			f.Comparator = op
+		case "fn2":
+			others := colsOfType(m, typ)
+			f.Comparator, f.Arg = func(x, y *string) bool { return x != nil && y != nil && len(*x) <= len(*y) }, types.ColumnName(others[p(3)%len(others)])
+			op = fmt.Sprintf("fn2 %v", f.Arg)
 		case "fn":
 			f.Comparator = func(x *string) bool { return x != nil && len(*x) > len(c)%2 }
 		case "col":
@@ -428,7 +441,15 @@ func resolveFrame(w *World, d OpDesc, recv, other *Member, client int) *Exec {
 	p := func(i int) int { return pick(d, i) }
 	id := fmt.Sprintf("m%d", recv.ID)
 	kind := frameOps[d.Kind%len(frameOps)]
-	names := recv.Names
+	// a frame in error state is a value like any other and every operation
+	// accepts it: the arguments are built as if it had the first base frame's columns
+	shape := recv
+	if f.Err != nil && len(w.Members) > 0 && len(w.Members[0].Names) > 0 {
+		sh := *recv
+		sh.Names, sh.Types = w.Members[0].Names, w.Members[0].Types
+		shape = &sh
+	}
+	names := shape.Names
 	if len(names) == 0 && kind != "misc" && kind != "string" && kind != "tocsv" && kind != "tojson" && kind != "equals" && kind != "tojson-fault" && kind != "tocsv-fault" {
 		kind = "misc"
 	}
@@ -439,7 +460,7 @@ func resolveFrame(w *World, d OpDesc, recv, other *Member, client int) *Exec {
 		// the clause is a value the caller owns: it is built once per world and
 		// description, used by every execution of this operation (also by
 		// other clients that run the same one) and must come back unchanged
-		_, desc := clause(recv, d, 0, 0)
+		_, desc := clause(shape, d, 0, 0)
 		ex.Desc = id + ".Filter(" + desc + ")"
 		key := fmt.Sprint(recv.ID, d.Kind, d.N) // the whole descriptor: the text leaves details out
 		if w.clauses == nil {
@@ -447,7 +468,7 @@ func resolveFrame(w *World, d OpDesc, recv, other *Member, client int) *Exec {
 		}
 		c, ok := w.clauses[key]
 		if !ok {
-			c, _ = clause(recv, d, 0, 0)
+			c, _ = clause(shape, d, 0, 0)
 			w.clauses[key] = c
 		}
 		before := c.String()
@@ -532,7 +553,7 @@ func resolveFrame(w *World, d OpDesc, recv, other *Member, client int) *Exec {
 		ex.Run = func() *Outcome { return frameOutcome(f.Copy(dst, src), ex.Desc, client, false) }
 	case "apply", "filteredapply":
 		src := anyCol(0)
-		typ := typeOf(recv, src)
+		typ := typeOf(shape, src)
 		dst := []string{"ap", "ap2", src, anyCol(1)}[p(2)%4]
 		variant := p(3) % 6
 		mk := func() []qframe.Instruction {
@@ -578,7 +599,7 @@ func resolveFrame(w *World, d OpDesc, recv, other *Member, client int) *Exec {
 					ins = qframe.Instruction{Fn: fns[p(4)%len(fns)], DstCol: dst, SrcCol1: src}
 				}
 			default: // two-arg, same type
-				others := colsOfType(recv, typ)
+				others := colsOfType(shape, typ)
 				src2 := others[p(5)%len(others)]
 				switch typ {
 				case "int":
@@ -635,16 +656,16 @@ func resolveFrame(w *World, d OpDesc, recv, other *Member, client int) *Exec {
 			ex.Desc = fmt.Sprintf("%s.Apply(variant %d, %q<-%q)", id, variant, dst, src)
 			ex.Run = func() *Outcome { return frameOutcome(f.Apply(mk()...), ex.Desc, client, false) }
 		} else {
-			_, cdesc := clause(recv, d, 3, 1)
+			_, cdesc := clause(shape, d, 3, 1)
 			ex.Desc = fmt.Sprintf("%s.FilteredApply(%s; variant %d, %q<-%q)", id, cdesc, variant, dst, src)
 			ex.Run = func() *Outcome {
-				c, _ := clause(recv, d, 3, 1)
+				c, _ := clause(shape, d, 3, 1)
 				return frameOutcome(f.FilteredApply(c, mk()...), ex.Desc, client, false)
 			}
 		}
 	case "eval":
 		src := anyCol(0)
-		typ := typeOf(recv, src)
+		typ := typeOf(shape, src)
 		dst := []string{"ev", src, "ev2"}[p(1)%3]
 		variant := p(2) % 5
 		useCtx := p(3)%3 == 0
@@ -656,7 +677,7 @@ func resolveFrame(w *World, d OpDesc, recv, other *Member, client int) *Exec {
 			c := types.ColumnName(src)
 			switch typ {
 			case "int":
-				others := colsOfType(recv, "int")
+				others := colsOfType(shape, "int")
 				c2 := types.ColumnName(others[p(4)%len(others)])
 				switch variant {
 				case 0:
@@ -688,7 +709,7 @@ func resolveFrame(w *World, d OpDesc, recv, other *Member, client int) *Exec {
 					return qframe.Expr("/", qframe.Expr("-", c, 1.0), 2.0)
 				}
 			case "bool":
-				others := colsOfType(recv, "bool")
+				others := colsOfType(shape, "bool")
 				c2 := types.ColumnName(others[p(4)%len(others)])
 				switch variant {
 				case 0:
@@ -778,7 +799,7 @@ func resolveFrame(w *World, d OpDesc, recv, other *Member, client int) *Exec {
 		ex.Run = func() *Outcome {
 			passed, check := guarded(cols)
 			g := f.GroupBy(groupby.Columns(passed...), groupby.Null(null))
-			res := g.Aggregate(aggsFor(recv.Names, recv.Types, cols, d)...)
+			res := g.Aggregate(aggsFor(shape.Names, shape.Types, cols, d)...)
 			out := frameOutcome(res, ex.Desc, client, true)
 			out.ArgChanged = check()
 			return out
@@ -861,7 +882,7 @@ func resolveFrame(w *World, d OpDesc, recv, other *Member, client int) *Exec {
 		}
 	case "view":
 		col := anyCol(0)
-		typ := typeOf(recv, col)
+		typ := typeOf(shape, col)
 		ex.Desc = fmt.Sprintf("%s.%sView(%q)", id, typ, col)
 		ex.Run = func() *Outcome {
 			v := makeView(f, col, typ)
